@@ -901,7 +901,12 @@ impl ProtocolState {
                     }
                     MqttPacket::Publish(publish) => {
                         if publish.duplicate {
-                            self.resubmit_operation_queue.push_front(id);
+                            // a retransmitted publish that was fully written on this connection (its PUBREL is what
+                            // was being encoded) is still in the pending publish table, which re-queues it below;
+                            // queueing it here as well would send it twice on the next connection
+                            if self.pending_publish_operations.get(&publish.packet_id) != Some(&id) {
+                                self.resubmit_operation_queue.push_front(id);
+                            }
                         } else if publish.qos == QualityOfService::ExactlyOnce && operation.qos2_pubrel.is_some() {
                             self.high_priority_operation_queue.push_front(id);
                         } else if does_packet_pass_offline_queue_policy(&operation.packet, &self.config.offline_queue_policy) {
